@@ -2,10 +2,14 @@
 """save_seeded.py Cxx /tmp/mut_Cxx_out "k:how it is detected" ... — copy confirmed seeded changes into seeded/Cxx-k/"""
 import json, shutil, sys
 from pathlib import Path
-pid, src = sys.argv[1], Path(sys.argv[2])
-notes = dict(a.split(":", 1) for a in sys.argv[3:])
+args = sys.argv[1:]
+offset = 0
+if args[0] == "--offset":
+    offset = int(args[1]); args = args[2:]
+pid, src = args[0], Path(args[1])
+notes = dict(a.split(":", 1) for a in args[2:])
 for k, how in notes.items():
-    d = Path("/verif/seeded") / f"{pid}-{k}"
+    d = Path("/verif/seeded") / f"{pid}-{int(k) + offset}"
     d.mkdir(parents=True, exist_ok=True)
     for f in ("patch.diff", "demo.py"):
         shutil.copy(src / f"mutant_{k}" / f, d / f)
